@@ -116,8 +116,9 @@ type entry struct {
 	comp      string                  // component reported in violations (default: name)
 	gateFloor func(thorough bool) int // floor for the gate_passed/<name> counter
 	// exhausted-state hammer (c09_exhausted_test.go)
-	floors  func(thorough bool) map[string]int // floors for counters that prove the state-specific code was reached
-	totalFn func(thorough bool) int            // inputs over all states, computed in the parent only (replaces quick/thorough)
+	floors    func(thorough bool) map[string]int // floors for counters that prove the state-specific code was reached
+	stateCost func(state string) int             // optional: scheduling cost of a state's jobs (0: cost x inputs)
+	totalFn   func(thorough bool) int            // inputs over all states, computed in the parent only (replaces quick/thorough)
 }
 
 func (e *entry) total(thorough bool) int {
